@@ -84,6 +84,11 @@ IsMsgEv(e) == e.type \in {"Anchor", "Attest", "DefineResolver", "RegisterResolve
 T_C10_FailedLeavesNoTrace ==
   [][(NotReset /\ IsMsgEv(dev') /\ ~dev'.ok) => (dst' = dst /\ ob'.kv_before = ob'.kv_after)]_tvars
 
+T_C17_Lists ==
+  dev.type = "Query" => \A i \in DOMAIN ob.lists : C17_DataListOK(dst, ob.lists[i])
+T_C17_Singles ==
+  dev.type = "Query" => \A i \in DOMAIN ob.singles : C17_DataSingleOK(dst, ob.singles[i])
+
 T_Conformance == conf
 
 =============================================================================
